@@ -23,6 +23,9 @@ def run(ctx):
     dsl.verify(ctx, repo, C.joint_registry(), "C03", [C.TJ + ".log_p", C.TJ + ".log_p_one", C.TJ + ".compute_both_log_p_and_log_p_one"], C.h_joint,
                expect_covers=C.JOINT_COVERS, concretise=_concretise)
     dsl.verify(ctx, repo, dsl.Registry(), "C03", "phyclone.data.pyclone.compute_outlier_prob", C.h_compute_outlier_prob, expect_covers=["p=0", "p>0"])
+    from contracts import c03_clades as CL
+
+    CL.verify_all(ctx, repo, "C03")
     rdp = dsl.Registry()
     rdp.generic_loops.add("phyclone.tree.utils._sub_compute_S")
     dsl.verify(ctx, repo, rdp, "C03", ["phyclone.data.base.DataPoint.__init__", "phyclone.tree.utils._sub_compute_S"], C.h_datapoint_init, expect_covers=["datapoint.named", "datapoint.unnamed"])
